@@ -11,6 +11,8 @@ macro_rules! dispatch {
     ($id:expr, $f:ident, $($arg:expr),*) => {
         match $id {
             "C02" => $f(&props::c02::C02, $($arg),*),
+            "C03" => $f(&props::c03::C03, $($arg),*),
+            "C04" => $f(&props::c04::C04, $($arg),*),
             "C08" => $f(&props::c08::C08, $($arg),*),
             "C09" => $f(&props::c09::C09, $($arg),*),
             "C10" => $f(&props::c10::C10, $($arg),*),
